@@ -38,7 +38,7 @@ type ctx struct {
 }
 
 func main() {
-	mode := flag.String("mode", "sqlite", "sqlite|mysql|postgres")
+	mode := flag.String("mode", "sqlite", "sqlite|mysql|postgres|postgres-ns")
 	tier := flag.String("tier", "quick", "quick|thorough")
 	outDir := flag.String("out", "", "output directory")
 	flag.Parse()
@@ -47,13 +47,21 @@ func main() {
 		os.Exit(2)
 	}
 	c := &ctx{w: out.New(*outDir), p: newProfile(*mode), r: rng.FromEnv(0xC02)}
+	if *mode == "postgres-ns" {
+		// the connection-backed PostgreSQL differ with a schema scope (conn.schema = "public")
+		c.differ, c.tie = scopedPGDiffer("public"), true
+		*mode = "postgres"
+	}
 	switch *mode {
 	case "sqlite":
 		c.differ, c.tie = sqlite.DefaultDiff, true
 	case "mysql":
 		c.differ, c.tie = mysql.DefaultDiff, true
 	case "postgres":
-		c.differ, c.tie = postgres.DefaultDiff, true
+		if c.differ == nil {
+			c.differ = postgres.DefaultDiff
+		}
+		c.tie = true
 	default:
 		fmt.Fprintln(os.Stderr, "unknown mode")
 		os.Exit(2)
@@ -63,6 +71,9 @@ func main() {
 	c.w.Exhaust = true
 	thorough := *tier == "thorough"
 	bs := bases(c.p)
+	if c.p.scoped { // the scoped stage differs from "postgres" in typeChanged only: the two bases with the types
+		bs = bs[:2]
+	}
 	c.w.Set("bases", len(bs))
 	total := 0
 	for bi, b := range bs {
@@ -451,6 +462,9 @@ func (c *ctx) multi(bi int, b Schema, cat []Edit, thorough bool) {
 	n := 900
 	if thorough {
 		n = 12000
+	}
+	if c.p.scoped {
+		n /= 3
 	}
 	var real []int
 	for i := range cat {
